@@ -1,6 +1,7 @@
 /- Driver ops for C07 / C19: count calculators and data-frame effect-measure classes. -/
 import Driver.Common
 import ZepidVerif.Model.Measures
+import ZepidVerif.Model.FrechetM
 import ZepidVerif.Gen.Calc
 import ZepidVerif.Gen.Frechet
 namespace ZVD
